@@ -691,3 +691,39 @@ func TinyNonASCIIDocs() []GenDoc {
 	}
 	return out
 }
+
+// OGPrefixDocs: pages that bind the Open Graph namespaces to prefix names of
+// every shape a page may choose — leading digit, underscore, upper case, a
+// hyphen or dot inside, non-ASCII, a lone digit — declared through prefix= on
+// <html> or <head> or through xmlns:NAME, with a full set of metas under that name.
+func OGPrefixDocs() []GenDoc {
+	names := []string{"2og", "_og", "OG", "og-x", "o.g", "ög", "9", "og_2", "x", "ogogogogogogogogogogogogogogogogog"}
+	var out []GenDoc
+	for i, n := range names {
+		for form := 0; form < 3; form++ {
+			htmlAttr, headAttr := "", ""
+			switch form {
+			case 0:
+				htmlAttr = fmt.Sprintf(` prefix="%s: http://ogp.me/ns# %sa: http://ogp.me/ns/article#"`, n, n)
+			case 1:
+				headAttr = fmt.Sprintf(` prefix="og: http://ogp.me/ns# %s: http://ogp.me/ns#"`, n)
+			case 2:
+				htmlAttr = fmt.Sprintf(` lang="en" xmlns:%s="http://ogp.me/ns#" xmlns:%sp="http://ogp.me/ns/profile#"`, n, n)
+			}
+			var sb strings.Builder
+			fmt.Fprintf(&sb, `<html%s><head%s><title>Prefix page %d - site</title>`, htmlAttr, headAttr, i)
+			fmt.Fprintf(&sb, `<meta property="%s:title" content="Prefix page %d"><meta property="%s:type" content="article"><meta property="%s:url" content="http://example.com/prefix/%d"><meta property="%s:image" content="http://example.com/p%d.jpg"><meta property="%s:description" content="described %d">`, n, i, n, n, i, n, i, n, i)
+			fmt.Fprintf(&sb, `<meta property="%sa:author" content="Author %d"><meta property="%sp:first_name" content="First"></head><body><div id="content"><h1>Prefix page %d</h1>`, n, i, n, i)
+			for p := 0; p < 3; p++ {
+				sb.WriteString("<p>")
+				for w := 0; w < 45; w++ {
+					fmt.Fprintf(&sb, "pf%d_%d ", i, p*45+w)
+				}
+				sb.WriteString("</p>\n")
+			}
+			sb.WriteString("</div></body></html>")
+			out = append(out, GenDoc{Bytes: []byte(sb.String()), URL: fmt.Sprintf("http://example.com/prefix/%d", i), Origin: fmt.Sprintf("ogprefix:%s:%d", n, form), Features: []string{"og-prefix-names"}, UTF8: true})
+		}
+	}
+	return out
+}
